@@ -197,3 +197,78 @@ pub fn verneed_1x2_g0_g3() {
 pub fn verdef_1x2_g2_g0() {
     verdef_1x2::<2, 0>(Class::ELF32);
 }
+
+/// Two needed files with one auxiliary record each, laid out "headers first, auxiliaries after" (non-contiguous, forward links):
+///   VN0 @0 (vn_aux = 32+G, vn_next = 16), VN1 @16 (vn_aux = 32+G relative to 16 -> absolute 48+G, vn_next = 0),
+///   AUX0 @32+G, AUX1 @48+G.   Every id / flag / hash / count is symbolic.
+pub fn verneed_2x1_headers_first<const G: usize>(class: Class) {
+    let le: bool = kani::any();
+    let e = if le { AnyEndian::Little } else { AnyEndian::Big };
+    let mut need: [u8; 64] = kani::any();
+    let a0 = Aux { hash: kani::any(), flags: kani::any(), other: kani::any() };
+    let a1 = Aux { hash: kani::any(), flags: kani::any(), other: kani::any() };
+    let p0 = 32 + G;
+    let p1 = 48 + G;
+    assert!(p1 + 16 <= 64);
+    put_u16(&mut need, 0, 1, le);
+    put_u16(&mut need, 2, 1, le); // vn_cnt
+    put_u32(&mut need, 4, 6, le); // "lib"
+    put_u32(&mut need, 8, p0 as u32, le);
+    put_u32(&mut need, 12, 16, le); // vn_next
+    put_u16(&mut need, 16, 1, le);
+    put_u16(&mut need, 18, 1, le);
+    put_u32(&mut need, 20, 10, le); // "d"
+    put_u32(&mut need, 24, (p1 - 16) as u32, le);
+    put_u32(&mut need, 28, 0, le);
+    put_u32(&mut need, p0, a0.hash, le);
+    put_u16(&mut need, p0 + 4, a0.flags, le);
+    put_u16(&mut need, p0 + 6, a0.other, le);
+    put_u32(&mut need, p0 + 8, 1, le); // "a"
+    put_u32(&mut need, p0 + 12, 0, le);
+    put_u32(&mut need, p1, a1.hash, le);
+    put_u16(&mut need, p1 + 4, a1.flags, le);
+    put_u16(&mut need, p1 + 6, a1.other, le);
+    put_u32(&mut need, p1 + 8, 3, le); // "bc"
+    put_u32(&mut need, p1 + 12, 0, le);
+    let versym: [u16; 2] = kani::any();
+    let mut vs = [0u8; 4];
+    put_u16(&mut vs, 0, versym[0], le);
+    put_u16(&mut vs, 2, versym[1], le);
+    let ids: VersionIndexTable<'_, AnyEndian> = ParsingTable::new(e, class, &vs);
+    let strs = StringTable::new(&STRS);
+    let table = SymbolVersionTable::new(ids, Some((VerNeedIterator::new(e, class, 2, 0, &need[..p1 + 16]), strs)), None);
+    let i: usize = kani::any();
+    let r = table.get_requirement(i);
+    if i >= 2 {
+        assert!(r.is_err());
+        return;
+    }
+    let v = versym[i] & 0x7fff;
+    let hidden = versym[i] & 0x8000 != 0;
+    match r {
+        Ok(None) => {
+            assert!(a0.other != v && a1.other != v);
+        }
+        Ok(Some(req)) => {
+            assert!(req.hidden == hidden);
+            if a0.other == v {
+                assert!(req.hash == a0.hash && req.flags == a0.flags);
+                assert!(str_eq(req.file, b"lib") && str_eq(req.name, b"a"));
+            } else {
+                assert!(a1.other == v);
+                assert!(req.hash == a1.hash && req.flags == a1.flags);
+                assert!(str_eq(req.file, b"d") && str_eq(req.name, b"bc"));
+                kani::cover!(true, "requirement served by the second needed file");
+            }
+        }
+        Err(_) => {
+            assert!(false);
+        }
+    }
+}
+
+#[kani::proof]
+#[kani::unwind(8)]
+pub fn verneed_2x1_headers_first_g0() {
+    verneed_2x1_headers_first::<0>(Class::ELF32);
+}
